@@ -1,7 +1,7 @@
 (* Evaluates the server model on the histories the harness ran against the real
    server and compares canonical projections. *)
 From Coq Require Import ZArith List Bool.
-From GCA Require Import Wrap Bytes Codec Amap Timeslot Server RunLib.
+From GCA Require Import Wrap Bytes Codec Amap Timeslot Server Archive RunLib.
 Import ListNotations.
 Open Scope Z_scope.
 Notation length := List.length.
@@ -85,6 +85,10 @@ Inductive obs :=
 Record cdisk := { c_keys : bool; c_gca : option bytes; c_auths : option (list auth);
                   c_reports : option (list report); c_stats : option (list cstats) }.
 
+(* an archive as downloaded, canonically rendered *)
+Record carchive := { ca_stats : option (list cstats); ca_reports : option (list report); ca_auths : option (list auth);
+                     ca_gca : option bytes; ca_temp : option bytes; ca_pub : bytes }.
+
 (* what start-up on a crash image was observed to do *)
 Inductive lobs := LStarted (s : snap) | LRefused | LPanicked.
 
@@ -93,7 +97,9 @@ Inductive hop :=
 | HSync (id : Z) (ob : obs)
 | HRecent (key : bytes) (ob : obs)
 | HSnap (s : snap)
-| HLoad (dk : cdisk) (now : Z) (ob : lobs).    (* start-up on a crash image; the running history is not affected *)
+| HLoad (dk : cdisk) (now : Z) (ob : lobs)     (* start-up on a crash image; the running history is not affected *)
+| HArchive (sched : list (list op * ftag)) (last : list op) (ob : carchive).
+                                               (* archive request with write bursts in the gaps between the file reads *)
 
 Definition uncanon_stats (c : cstats) : stats :=
   {| st_devs := map (fun d => {| ds_key := fst (fst d); ds_power := snd (fst d); ds_impact := snd d |}) (snd c);
@@ -131,9 +137,20 @@ Definition sync_eqb (a b : bytes * Z * list Z) : bool :=
   list_eqb Z.eqb (fold_right zins1 [] (snd a)) (snd b).
 
 (* runs a history; returns the index of the first disagreeing step, if any *)
+Definition archive_matches (ar : archive) (ob : carchive) : bool :=
+  opt_eqb (list_eqb cstats_eqb) (option_map (map canon_stats) (ar_stats ar)) (ca_stats ob) &&
+  opt_eqb (list_eqb report_eqb) (ar_reports ar) (ca_reports ob) &&
+  opt_eqb (list_eqb auth_eqb) (ar_auths ar) (ca_auths ob) &&
+  opt_eqb bytes_eqb (ar_gca ar) (ca_gca ob) && opt_eqb bytes_eqb (ar_temp ar) (ca_temp ob) &&
+  bytes_eqb (ar_pub ar) (ca_pub ob).
+
 Fixpoint run_hist (t : sigtable) (tk : bytes) (fresh : bytes * bytes) (st : state) (h : list hop) (i : nat) : option nat :=
   match h with
   | [] => None
+  | HArchive sched last ob :: h' =>
+      let '(st1, ar) := archive_run (tverify t) nosign nosb st empty_archive sched in
+      let ar' := finish_archive (tverify t) nosign nosb st1 ar last in
+      if archive_matches ar' ob then run_hist t tk fresh (run (tverify t) nosign nosb st1 last) h' (S i) else Some i
   | HLoad c now ob :: h' => if load_matches t tk fresh c now ob then run_hist t tk fresh st h' (S i) else Some i
   | HOp o ob :: h' =>
       let '(st', out) := step (tverify t) nosign nosb st o in
